@@ -112,6 +112,7 @@ type Exchange struct {
 	Repo     string
 	Path     string     // request path
 	SentPath string     // the path the client asked for (differs from Path after Decision.Redirect)
+	RawQuery string     // the raw query of the request exactly as received
 	Query    url.Values // request query as received
 	Dec      Decision
 	Status   int
@@ -251,7 +252,7 @@ func (r *Registry) RoundTrip(req *http.Request) (*http.Response, error) {
 		req.Body.Close()
 	}
 	p := req.URL.Path
-	x := &Exchange{Path: p, Query: ParseQueryLenient(req.URL.RawQuery)}
+	x := &Exchange{Path: p, Query: ParseQueryLenient(req.URL.RawQuery), RawQuery: req.URL.RawQuery}
 	// listings are also served under the sibling path <path>/~p (Decision.AltPath)
 	alt := strings.HasSuffix(p, "/~p")
 	p = strings.TrimSuffix(p, "/~p")
